@@ -60,6 +60,9 @@ type icsBlob struct {
 	unknown bool  // carries an unknown field: refused by the strict proto JSON codec, accepted by encoding/json
 	wire    int   // wire form: 0 canonical (empty fields omitted), 1 every field present, 2 empty fields omitted + escapes + white space; a decoder leaves absent fields of its target untouched
 }
+// fmtBlob: text produced by a formatting verb that is not modelled (content unknown).
+type fmtBlob struct{}
+
 type memoBlob struct {
 	wrapper value // *value -> PayloadWrapper structure
 	extra   int   // extra root keys besides "orbiter"
